@@ -351,9 +351,16 @@ pub fn worker(args: &[String]) -> i32 {
     0
 }
 
+/// number of cases that exceeded the CPU budget so far; after a handful the remaining cases add no information
+static BUDGET_KILLS: std::sync::atomic::AtomicU64 = std::sync::atomic::AtomicU64::new(0);
+
 fn run_shard(exe: &str, build: &str, seed: u64, workload: &str, lo: u64, hi: u64, acc: &mut Acc) {
     let mut cur = lo;
     while cur < hi {
+        if BUDGET_KILLS.load(std::sync::atomic::Ordering::Relaxed) >= 6 {
+            acc.cov("cut-short-after-repeated-cpu-budget-violations");
+            return;
+        }
         let mut child = match Command::new(exe)
             .args(["worker", "c04", &seed.to_string(), workload, &cur.to_string(), &hi.to_string()])
             .stdout(Stdio::piped())
@@ -412,6 +419,7 @@ fn run_shard(exe: &str, build: &str, seed: u64, workload: &str, lo: u64, hi: u64
                         json!({"build": build, "workload": workload, "k": kx, "note": "all 30 entry points normally return within milliseconds of CPU time on this input; after 60 seconds of CPU time (process time, not wall clock) no result had been returned: bounded-progress reading of 'terminates normally'"}),
                     );
                     cpu_killed = Some(kx);
+                    BUDGET_KILLS.fetch_add(1, std::sync::atomic::Ordering::Relaxed);
                 }
             } else if let Some(r) = line.strip_prefix("S ") {
                 started = r.trim().parse().ok();
